@@ -2,6 +2,7 @@ import Ccp.Proofs.IPText
 import Ccp.Proofs.IPSpell
 import Ccp.Proofs.IPRender
 import Ccp.Spec.IP
+import Ccp.Proofs.IPTextX
 /-!
 # C11 — IPv4/IPv6 objects agree with the standard library on every derived value
 
@@ -639,5 +640,174 @@ theorem octets_groups_value :
     refine ⟨groups_lt ip, ?_⟩
     simp only [IP.groupsVal, IP.groups, IP.group, List.range, List.range.loop, List.map, List.foldl]
     omega
+
+/-! ## Factories, argument guards and the remaining value properties (`Ccp.Model.IPTextX`)
+
+`getIpv4 / getIpv6 val stdlib` are `_get_ipv4` / `_get_ipv6`, `ipFactory val stdlib mode` is `ip_factory`,
+`checkValid text` is `check_valid_ipaddress`; `ctor4 / ctor6` are the constructors `IPv4Obj(val)` /
+`IPv6Obj(val)` of the theorems above (`val` a `str` or an `int`), `stdNet4 / stdNet6 val` is the stdlib's own
+`IPv4Network(val, strict=False)` / `IPv6Network(…)`, which the factories ask first. -/
+
+open Ccp.IPTextX in
+/-- **the factories return the constructor's object** (so every theorem above about `IPv4Obj(text)` /
+`IPv6Obj(text)` holds for what they return) — exactly for the values that the stdlib itself reads *and* the
+constructor accepts (no surrounding blanks, no blank instead of the slash: the stdlib refuses those);
+whatever goes wrong is reported as `AddressValueError`, nothing else escapes. -/
+theorem factory_is_constructor (val : Val) (stdlib : Bool) :
+    (∀ r, getIpv4 val false = .ok r ↔ stdNet4 val = .ok () ∧ ∃ o, ctor4 val = .ok o ∧ r = .obj4 o) ∧
+    (∀ r, getIpv6 val false = .ok r ↔ stdNet6 val = .ok () ∧ ∃ o, ctor6 val = .ok o ∧ r = .obj6 o) ∧
+    (∀ e, getIpv4 val stdlib = .error e → e = .addressValueError) ∧
+    (∀ e, getIpv6 val stdlib = .error e → e = .addressValueError) := by
+  refine ⟨fun r => ?_, fun r => ?_, fun e h => wrapAVE_error _ e h, fun e h => wrapAVE_error _ e h⟩
+  · rw [getIpv4_eq, wrapAVE_ok, getBody4_ok]; simp
+  · rw [getIpv6_eq, wrapAVE_ok, getBody6_ok]; simp
+
+open Ccp.IPTextX in
+/-- **`stdlib=True`**: the factory returns the stdlib address of the object for a host route (`/32`,
+`/128`) and otherwise `obj.network` — the network, *without* the host bits — and nothing else. -/
+theorem factory_stdlib (val : Val) (r : Ret) :
+    (getIpv4 val true = .ok r ↔ stdNet4 val = .ok () ∧ ∃ o, ctor4 val = .ok o ∧
+      ((o.len = 32 ∧ r = .addr4 o.ip) ∨ (o.len ≠ 32 ∧ ∃ n, V4.network o = .ok n ∧ r = .net4 n))) ∧
+    (getIpv6 val true = .ok r ↔ stdNet6 val = .ok () ∧ ∃ o, ctor6 val = .ok o ∧
+      ((o.len = 128 ∧ r = .addr6 o.ip) ∨ (o.len ≠ 128 ∧ ∃ n, V6.network o = .ok n ∧ r = .net6 n))) := by
+  constructor
+  · rw [getIpv4_eq, wrapAVE_ok, getBody4_ok]; simp [Gen.ipv4MaxPrefixlen]
+  · rw [getIpv6_eq, wrapAVE_ok, getBody6_ok]; simp [Gen.ipv6MaxPrefixlen]
+
+-- for an object that satisfies the class invariant `obj.network` is (ip AND mask, len): the host bits are gone
+example : V4.network (mk4 0x0a010203 24) = .ok (0x0a010200, 24) := by
+  have := (v4_values_agree 0x0a010203 24 (by decide) (by decide)).2.2.2.2.2.2.1
+  rw [this]; decide
+
+open Ccp.IPTextX in
+/-- **`ip_factory` dispatch**: `auto_detect` sends a text containing `:` to `_get_ipv6`, any other text to
+`_get_ipv4` and refuses an integer (`NotImplementedError`); `ipv4` / `ipv6` call the one factory named (an
+integer is fine there); any other `mode` is refused with `RequirementFailure`. -/
+theorem ip_factory_dispatch (val : Val) (stdlib : Bool) (mode : Py.Str) :
+    (∀ s, ipFactory (.str s) stdlib modeAuto = if s.contains ':' then getIpv6 (.str s) stdlib else getIpv4 (.str s) stdlib) ∧
+    (∀ n, ipFactory (.int n) stdlib modeAuto = .error .notImplementedError) ∧
+    ipFactory val stdlib modeV4 = getIpv4 val stdlib ∧
+    ipFactory val stdlib modeV6 = getIpv6 val stdlib ∧
+    (mode ≠ modeAuto → mode ≠ modeV4 → mode ≠ modeV6 → ipFactory val stdlib mode = .error .requirementFailure) := by
+  refine ⟨fun s => rfl, fun n => rfl, ?_, ?_, fun h1 h2 h3 => ?_⟩
+  · have : modeV4 ≠ modeAuto := by decide
+    simp only [ipFactory, this, if_false, if_true, getIpv4_eq, wrapAVE_idem]
+  · have h1 : modeV6 ≠ modeAuto := by decide
+    have h2 : modeV6 ≠ modeV4 := by decide
+    simp only [ipFactory, h1, h2, if_false, if_true, getIpv6_eq, wrapAVE_idem]
+  · simp only [ipFactory, h1, h2, h3, if_false]
+
+open Ccp.IPTextX in
+/-- **`check_valid_ipaddress` as it is** (known finding FC11a): it answers `(stripped text, 4)` exactly when
+`IPv4Obj` accepts the stripped text and raises `ValueError` otherwise — it never answers family 6: the IPv6
+attempt in its source is dead code, so every valid IPv6 address is rejected. -/
+theorem check_valid_spec (s : Py.Str) :
+    (∀ t fam, checkValid s = .ok (t, fam) ↔ t = Py.strip s ∧ fam = 4 ∧ ∃ o, V4.fromStr (Py.strip s) = .ok o) ∧
+    (∀ e, checkValid s = .error e → e = .valueError) ∧
+    (∀ t, checkValid s ≠ .ok (t, 6)) := by
+  unfold checkValid
+  cases h : V4.fromStr (Py.strip s) with
+  | error e =>
+    refine ⟨fun t fam => ?_, fun e' he => ?_, fun t he => ?_⟩
+    · simp
+    · cases he; rfl
+    · cases he
+  | ok o =>
+    refine ⟨fun t fam => ?_, fun e' he => ?_, fun t he => ?_⟩
+    · simp only [Except.ok.injEq, Prod.mk.injEq, exists_eq', and_true]
+      constructor
+      · rintro ⟨rfl, rfl⟩; exact ⟨rfl, rfl⟩
+      · rintro ⟨rfl, rfl⟩; exact ⟨rfl, rfl⟩
+    · cases he
+    · cases he
+
+open Ccp.IPTextX in
+example : checkValid " 10.1.2.3/24 ".toList = .ok ("10.1.2.3/24".toList, 4) ∧
+    checkValid "::1".toList = .error .valueError := by decide +kernel
+
+open Ccp.IPTextX in
+/-- **argument guards**: `_get_ipv4` / `_get_ipv6` pass exactly when `val` is `str|int`, `strict` and `stdlib`
+are `bool` and `debug` is `int`, and raise `ValueError` otherwise; `ip_factory` passes exactly when the types
+are right and `mode` is one of the three names, raises `RequirementFailure` for a wrong `mode` (checked after
+`val`, before the others) and `ValueError` for a wrong type.  The constructors build the empty object from
+`None`, refuse any other foreign type with `AddressValueError` and a non-`int` `debug` with `ValueError`;
+`check_valid_ipaddress` refuses anything but a `str` with `ValueError`. -/
+theorem guards_spec (a b c d : Bool) (mode : Py.Str) :
+    (guardGet a b c d = none ↔ a = true ∧ b = true ∧ c = true ∧ d = true) ∧
+    (∀ e, guardGet a b c d = some e → e = .valueError) ∧
+    (guardFactory a mode c d = none ↔
+      a = true ∧ (mode = modeAuto ∨ mode = modeV4 ∨ mode = modeV6) ∧ c = true ∧ d = true) ∧
+    (guardFactory a mode c d = some .requirementFailure ↔
+      a = true ∧ ¬ (mode = modeAuto ∨ mode = modeV4 ∨ mode = modeV6)) ∧
+    ctorByType .none = .ok () ∧ ctorByType .foreign = .error .addressValueError ∧
+    ctorByType .badDebug = .error .valueError ∧
+    guardCheck true = none ∧ guardCheck false = some .valueError := by
+  refine ⟨?_, ?_, ?_, ?_, rfl, rfl, rfl, rfl, rfl⟩
+  · cases a <;> cases b <;> cases c <;> cases d <;> simp [guardGet]
+  · intro e; cases a <;> cases b <;> cases c <;> cases d <;> simp [guardGet] <;> exact fun h => h.symm
+  · by_cases hm : mode = modeAuto ∨ mode = modeV4 ∨ mode = modeV6 <;>
+      cases a <;> cases c <;> cases d <;> simp [guardFactory, hm]
+  · by_cases hm : mode = modeAuto ∨ mode = modeV4 ∨ mode = modeV6 <;>
+      cases a <;> cases c <;> cases d <;> simp [guardFactory, hm]
+
+open Ccp.IPTextX in
+/-- **the remaining value properties of an IPv4 object** `(ip, len)`: `ipv4`, `_ip`, `as_int` are the address;
+`masklen = masklength = prefixlength = len`; `packed` is the four octets (they re-read to `ip`);
+`inverse_netmask` is the hostmask; `max_int = 2^32 - 1`; `version = 4`; `network_offset` is `ip - network`
+unless that exceeds `numhosts` (`RequirementFailure`; C13's `get_offset_spec`). -/
+theorem v4_extra_values (ip len : Nat) (hip : ip < 2 ^ 32) (hlen : len ≤ 32) :
+    let x := extra4 (mk4 ip len)
+    x.ip = ip ∧ x.ipInt = ip ∧ x.asInt = .ok ip ∧
+    x.masklen = len ∧ x.masklength = len ∧ x.prefixlength = len ∧
+    x.packed = toBytes4 ip ∧ fromBytes x.packed = ip ∧
+    x.inverseNetmask = IP.hostmask 32 len ∧ x.maxInt = 2 ^ 32 - 1 ∧ x.version = 4 ∧
+    x.networkOffset =
+      (if ((ip : Int) - (IP.net 32 ip len : Int)) > (IP.hosts 32 len : Int) then .error .requirementFailure
+       else .ok ((ip : Int) - (IP.net 32 ip len : Int))) := by
+  intro x
+  have v := v4_values_agree ip len hip hlen
+  simp only at v
+  obtain ⟨_, _, _, _, hh, _, _, hd, hn, _, hnh, _⟩ := v
+  have hmax : Gen.ipv4MaxInt = 2 ^ 32 - 1 := by decide
+  refine ⟨rfl, rfl, hd, rfl, rfl, rfl, rfl, fromBytes_toBytes4 ip (by omega), hh, hmax, rfl, ?_⟩
+  show networkOffset4 (mk4 ip len) = _
+  unfold networkOffset4
+  rw [hd, hn, hnh]
+  rfl
+
+open Ccp.IPTextX in
+/-- **the remaining value properties of an IPv6 object**; `is_ipv4_mapped` holds exactly for `::ffff:a.b.c.d`;
+`broadcast`, `as_decimal_broadcast` raise `NotImplementedError`, `teredo`, `sixtofour` raise `AttributeError`
+for every object. -/
+theorem v6_extra_values (ip len : Nat) (hip : ip < 2 ^ 128) (hlen : len ≤ 128) :
+    let x := extra6 (mk6 ip len)
+    x.ip = ip ∧ x.ipInt = ip ∧ x.asInt = .ok ip ∧
+    x.masklen = len ∧ x.masklength = len ∧ x.prefixlength = len ∧
+    x.packed = toBytes16 ip ∧
+    x.inverseNetmask = IP.hostmask 128 len ∧ x.maxInt = 2 ^ 128 - 1 ∧ x.version = 6 ∧
+    x.networkOffset =
+      (if ((ip : Int) - (IP.net 128 ip len : Int)) > (IP.hosts 128 len : Int) then .error .requirementFailure
+       else .ok ((ip : Int) - (IP.net 128 ip len : Int))) ∧
+    (isIpv4Mapped (mk6 ip len) = true ↔ 0xffff00000000 ≤ ip ∧ ip ≤ 0xffffffffffff) := by
+  intro x
+  have v := v6_values_agree ip len hip hlen
+  simp only at v
+  obtain ⟨_, _, _, _, hh, _, _, hd, hn, _, hnh, _⟩ := v
+  have hmax : Gen.ipv6MaxInt = 2 ^ 128 - 1 := by decide
+  refine ⟨rfl, rfl, hd, rfl, rfl, rfl, rfl, hh, hmax, rfl, ?_, ?_⟩
+  · show networkOffset6 (mk6 ip len) = _
+    unfold networkOffset6
+    rw [hd, hn, hnh]
+    rfl
+  · show (ip / 2 ^ 32 == 0xffff) = true ↔ _
+    rw [beq_iff_eq]
+    omega
+
+open Ccp.IPTextX in
+example : (extra4 (mk4 0x0a0102ff 24)).packed = [10, 1, 2, 255] ∧
+    (extra4 (mk4 0x0a0102ff 24)).networkOffset = .error .requirementFailure ∧
+    (extra4 (mk4 0x0a0102fe 24)).networkOffset = .ok 254 ∧
+    isIpv4Mapped (mk6 0xffff01020304 96) = true ∧ isIpv4Mapped (mk6 0x1ffff01020304 96) = false :=
+  by decide +kernel
 
 end Ccp.C11
